@@ -18,6 +18,7 @@ import (
 type factSet struct {
 	nats   map[string]int
 	lists  map[string][]int
+	lists2 map[string][][]int
 	cases  map[string]map[string]string
 	order  []string
 }
@@ -32,6 +33,11 @@ func (f *factSet) list(name string, v []int) {
 	f.order = append(f.order, name)
 }
 
+func (f *factSet) list2(name string, v [][]int) {
+	f.lists2[name] = v
+	f.order = append(f.order, name)
+}
+
 func (f *factSet) addCase(fact string, idx int, pid, op string, args ...string) {
 	if f.cases[fact] == nil {
 		f.cases[fact] = map[string]string{}
@@ -42,7 +48,7 @@ func (f *factSet) addCase(fact string, idx int, pid, op string, args ...string) 
 var factProbes []func(f *factSet)
 
 func probe(leanOut, jsonOut string) {
-	f := &factSet{nats: map[string]int{}, lists: map[string][]int{}, cases: map[string]map[string]string{}}
+	f := &factSet{nats: map[string]int{}, lists: map[string][]int{}, lists2: map[string][][]int{}, cases: map[string]map[string]string{}}
 	for _, p := range factProbes {
 		p(f)
 	}
@@ -51,6 +57,16 @@ func probe(leanOut, jsonOut string) {
 	for _, name := range f.order {
 		if v, ok := f.nats[name]; ok {
 			fmt.Fprintf(&b, "def %s : Nat := %d\n", name, v)
+		} else if ll, ok := f.lists2[name]; ok {
+			rows := make([]string, len(ll))
+			for i, l := range ll {
+				parts := make([]string, len(l))
+				for j, x := range l {
+					parts[j] = itoa(x)
+				}
+				rows[i] = "[" + strings.Join(parts, ", ") + "]"
+			}
+			fmt.Fprintf(&b, "def %s : List (List Nat) := [%s]\n", name, strings.Join(rows, ",\n  "))
 		} else {
 			l := f.lists[name]
 			parts := make([]string, len(l))
